@@ -53,12 +53,27 @@ fn main() {
     scrub_env();
     small_trust_store();
     install_logger();
+    crate::alloc::install_abort_handler();
     let args: Vec<String> = std::env::args().skip(1).collect();
     let Some(id) = args.first().cloned() else {
         eprintln!("usage: vcheck <ID> quick|thorough|--replay <path>");
         std::process::exit(2);
     };
     let rest = &args[1..];
+    if id == "selftest-abort" {
+        // exercises the SIGABRT path: a deliberately overflowing recursion on a thread that has a current case
+        fn dive(n: u64) -> u64 {
+            let pad = [n; 64];
+            if n == 0 { 0 } else { std::hint::black_box(dive(std::hint::black_box(n - 1)) + pad[(n % 64) as usize]) }
+        }
+        let path: &'static str = Box::leak(format!("{}/replays/SELFTEST-abort.json\0", engine::verif_root().display()).into_boxed_str());
+        let h = std::thread::spawn(move || {
+            crate::alloc::set_current_case("{\"selftest\":true}", path, "VIOLATION property=SELFTEST replay=SELFTEST-abort.json\n");
+            println!("{}", dive(u64::MAX));
+        });
+        let _ = h.join();
+        std::process::exit(0);
+    }
     if id == "gen-corpus" {
         // seed corpus for the libFuzzer targets: 8 configuration bytes + a wire image built by the reference builders
         let dir = std::path::PathBuf::from(rest.first().cloned().unwrap_or_else(|| "corpus".into()));
